@@ -6,11 +6,35 @@ pure-arithmetic functions of  <repo_root>/persim  with `ast` and writes, express
 definition per function into  <out_dir>/PersimVerif/Generated/Src*.lean , each followed by GENERATED OBLIGATIONS
 stating that the generated definition EQUALS the hand-written model definition (polymorphically, over the same
 core classes as the model, hence at Rat, Float and the reals alike).  The proofs are `rfl`: the two definitions
-must unfold to the same term.  Any edit of the translated source lines therefore changes the generated definition
-and breaks the obligation -- a meaning-changing edit and a harmless rewrite alike (DESIGN.md 3.3: the check then
-searches for a failing input; for a harmless rewrite the documented outcome is `no-failing-input-found`).
+must unfold to the same term.
 
-What is generated from the source: the bodies of the definitions, the defaults tables.
+WHAT AN EDIT OF /repo DOES (the tie is exactly this strong, no stronger):
+  (a) inside a translated region every statement and expression is read.  An edit there changes the generated term and
+      `src_<f>_eq_model` no longer checks -- unless the edit is one of the value-preserving rewrites listed under
+      "Conventions" below (`a > b` / `b < a`, `1.0` / `1`, `+e` / `e`, `flag == True` / `flag`, `0.5 * e` / `e / 2` in the
+      matrix regions, `e ** 2` / `e * e` in heat), a renaming of local variables, or produces a term that still unfolds to
+      the model's (then nothing breaks, and nothing should);
+  (b) what the translation NORMALISES AWAY or never reads is pinned as TEXT (`ast.unparse`, so comments, blank lines and
+      docstrings do not count) against the reviewed text in the tables of this file:
+        * the rest of the function around a region                        srcSkeleton_<f> / srcSkeletonAfter_<f>
+        * decorators, parameters, defaults, annotations                   srcSignature_<function>
+        * array conversions read as the identity (`np.array(x, dtype=float)` -> `x`)   srcConversions_<f>
+        * skipped guards `if p is None: p = <default>` (text and numeric entries)        srcNoneDefaults_<f>
+        * numeric / Boolean keyword defaults, as numbers                  srcDefaults_<f> / srcBoolDefaults_<f>
+        * every module-level binding (import, def, class, assignment, loop/with/except target, `del`, `global`, star import)
+          of every name a translated function reads and does not bind itself, its own name included, and the class-level
+          bindings of the `self.<attr>` it uses and of the attribute hooks (`__setattr__`, …)       srcBindings_<file>
+        * `bvn_cdf` / `gauss_legendre_quad` statement by statement        KernelConsts.srcStructure_* (consts.py)
+      any edit that changes one of these texts breaks the obligation of that name, harmless or not (DESIGN.md 3.3: the
+      check then searches for a failing input; for a harmless rewrite the documented outcome is `no-failing-input-found`);
+  (c) NOT tied to anything by the translators: functions that have no target (listed at the end of every generated file
+      and in the evidence, `not_translated`), the callers of
+      the translated functions (`persim/__init__.py`), rebinding that is not a statement of the module's own scope
+      (`globals()[...] = …`, `setattr(module, …)`, another module assigning `persim.heat.np`, `sys.modules` tricks,
+      `exec`), the behaviour of base classes (`sklearn.base`) and of the libraries behind the imported names, and the
+      Python semantics of the subset itself.  Those are the correspondence streams' job (DESIGN.md 3.1).
+
+What is generated from the source: the bodies of the definitions, the defaults tables, the pinned texts.
 What is fixed in this file (reviewed by hand, part of the trusted base): the TARGETS table -- which function /
 region is read, the Lean binders and class assumptions (copied from the model's section header), which Python
 callee is which Lean function parameter or model helper, and the statements of the obligations.
@@ -31,7 +55,8 @@ Conventions (all value-preserving in exact arithmetic; they are the translator's
   * `a > b` is written `b < a` and `a >= b` is written `b <= a` (the models assume only `<`/`<=`).
   * `np.maximum/np.minimum` -> `max/min`; `np.sqrt/np.exp/np.log/np.expm1/erfc/np.abs/...` -> the function
     parameter or model helper named in the target's table; `np.pi` -> the parameter `pi`; `np.array(x)` and
-    `np.array(x, dtype=float)` -> `x` (conversion to floating point is the identity of the exact-arithmetic model).
+    `np.array(x, dtype=float)` -> `x` (conversion to floating point is the identity of the exact-arithmetic model; the
+    call is recorded as written in `srcConversions_<f>`, so dropping or changing the dtype breaks `src_<f>_conversions`).
   * float literals: per target either as written (`2.0`, class `OfScientific`) or, where the model uses numerals,
     the integer they denote (`1.0` -> `1`); a float literal that is not integral is then a Shape error.
   * `e ** 2` on a difference of points -> `e * e` (heat only); every other `**` -> the binary parameter `pow`.
@@ -173,6 +198,8 @@ class Tr:
         self.rows = {}            # (array python name, index python name) -> pair Val   (rows of a diagram inside a fold)
         self.elemwise_index = None
         self.stmts_after = []     # look-ahead for the materialisation rule
+        self.conversions = []     # texts of the array conversions read as the identity (`np.array(x, dtype=float)`)
+        self.none_defaults = []   # (parameter, text of the default, its numeric literals) of the skipped `if p is None` guards
 
     # --- names
     def fresh(self, py):
@@ -440,6 +467,8 @@ class Tr:
         if kind == "id":
             if len(args) != 1:
                 raise Shape("%s expects one argument" % name)
+            if id(node) not in [i for i, _ in self.conversions]:   # pinned by `src_<f>_conversions` (the dtype is part of the text)
+                self.conversions.append((id(node), one_line(node)))
             return args[0]
         if kind == "sum":
             if len(args) != 1:
@@ -703,6 +732,8 @@ class Tr:
         if isinstance(s, ast.Expr) and isinstance(s.value, ast.Constant) and isinstance(s.value.value, str):
             return self.block(rest)                                    # docstring
         if self.none_guard(s):
+            d = s.body[0].value                                        # pinned by `src_<f>_none_defaults`
+            self.none_defaults.append((s.test.left.id, one_line(d), numeric_leaves(d, self.src)))
             return self.block(rest)
         t = self.terminal(s)
         if t is not None:
@@ -867,6 +898,8 @@ TARGETS = [
          params=[("birth", "S"), ("pers", "S"), ("mu", "I"), ("sigma", "I")],
          index_params={"mu": [((0,), "mu0"), ((1,), "mu1")], "sigma": [((0, 0), "s00"), ((1, 1), "s11"), ((0, 1), "s01")]},
          none_defaults=("mu", "sigma"),
+         none_default_values=[("mu", "np.array([0.0, 0.0], dtype=np.float64)", "0 0"),
+                              ("sigma", "np.array([[1.0, 0.0], [0.0, 1.0]], dtype=np.float64)", "1 0 0 1")],
          calls={"sbvn_cdf": ("internal", "sbvn_cdf"), "bvn_cdf": ("internal", "bvn_cdf")}, lit="nat",
          obligations=[("src_gaussian_dispatch_eq_model", "(Φ sqrt : α → α) (bvn : α → α → α → α → α → α → α → α)",
                        "gaussian (sbvn_cdf Φ sqrt) bvn = PersimVerif.Kernels.gaussian Φ sqrt bvn", "rfl",
@@ -895,7 +928,7 @@ TARGETS = [
          fparams=[("exp", A1)], cparams=[("pi", "α")],
          params=[("dgm1", "LP"), ("dgm2", "LP"), ("sigma", "S")],
          calls={"np.array": ("id",), "np.exp": ("fn", "exp", 1), "np.sum": ("sum",)}, attrs={"np.pi": "pi"},
-         square_as_mul=True, lit="nat",
+         square_as_mul=True, lit="nat", conversions=["np.array(dgm1, dtype=float)", "np.array(dgm2, dtype=float)"],
          obligations=[("src_evalHeatKernel_eq_model", "", "evalHeatKernel (α := α) = PersimVerif.Heat.evalHeatKernel", "rfl",
                        "the double loop is the model's double left fold, the summand is `kTerm`, the final division is the same")]),
     dict(file="heat", func="heat", lean="heat", region="function",
@@ -990,18 +1023,247 @@ FILES = {
 }
 
 
+# what the names and signatures of the translated functions must be bound to / look like (reviewed against /repo; the
+# generated `srcBindings_<file>` / `srcSignature_<function>` are compared with these texts on every run)
+BINDINGS = {
+    'approx': [
+        ('PersLandscape', 'from .base import PersLandscape'),
+        ('bool', 'builtin'),
+        ('dict', 'builtin'),
+        ('enumerate', 'builtin'),
+        ('len', 'builtin'),
+        ('list', 'builtin'),
+        ('max', 'builtin'),
+        ('ndsnap_regular', 'from .auxiliary import ndsnap_regular'),
+        ('np', 'import numpy as np'),
+        ('print', 'builtin'),
+        ('range', 'builtin'),
+        ('sorted', 'builtin'),
+        ('zip', 'builtin'),
+        ('class PersLandscapeApprox', 'class PersLandscapeApprox(PersLandscape)'),
+        ('PersLandscapeApprox.compute_landscape', 'def compute_landscape'),
+    ],
+    'approx_tools': [
+        ('NotImplementedError', 'builtin'),
+        ('death_vector', 'def death_vector'),
+        ('int', 'builtin'),
+        ('list', 'builtin'),
+        ('sorted', 'builtin'),
+    ],
+    'bottleneck': [
+        ('HopcroftKarp', 'from hopcroftkarp import HopcroftKarp'),
+        ('bisect_left', 'from bisect import bisect_left'),
+        ('bottleneck', 'def bottleneck'),
+        ('float', 'builtin'),
+        ('int', 'builtin'),
+        ('len', 'builtin'),
+        ('min', 'builtin'),
+        ('np', 'import numpy as np'),
+        ('range', 'builtin'),
+        ('warnings', 'import warnings'),
+    ],
+    'entropy': [
+        ('Exception', 'builtin'),
+        ('all', 'builtin'),
+        ('float', 'builtin'),
+        ('isinstance', 'builtin'),
+        ('len', 'builtin'),
+        ('list', 'builtin'),
+        ('np', 'import numpy as np'),
+        ('persistent_entropy', 'def persistent_entropy'),
+    ],
+    'graph': [
+        ('StopIteration', 'builtin'),
+        ('ValueError', 'builtin'),
+        ('cast_distance_matrix_to_optimal_int_type', 'def cast_distance_matrix_to_optimal_int_type'),
+        ('connected_components', 'from scipy.sparse.csgraph import connected_components'),
+        ('determine_optimal_int_type', 'def determine_optimal_int_type'),
+        ('isinstance', 'builtin'),
+        ('make_distance_matrix_from_adjacency_matrix', 'def make_distance_matrix_from_adjacency_matrix'),
+        ('next', 'builtin'),
+        ('np', 'import numpy as np'),
+        ('shortest_path', 'from scipy.sparse.csgraph import shortest_path'),
+        ('sps', 'import scipy.sparse as sps'),
+        ('warnings', 'import warnings'),
+    ],
+    'heat': [
+        ('evalHeatKernel', 'def evalHeatKernel'),
+        ('float', 'builtin'),
+        ('heat', 'def heat'),
+        ('np', 'import numpy as np'),
+        ('range', 'builtin'),
+    ],
+    'imager': [
+        ('TransformerMixin', 'from sklearn.base import TransformerMixin'),
+        ('images_kernels', 'from persim import images_kernels'),
+        ('images_weights', 'from persim import images_weights'),
+        ('int', 'builtin'),
+        ('np', 'import numpy as np'),
+        ('class PersistenceImager', 'class PersistenceImager(TransformerMixin)'),
+        ('PersistenceImager.__init__', 'def __init__'),
+        ('PersistenceImager._create_mesh', 'def _create_mesh'),
+        ('PersistenceImager._ensure_callable', 'def _ensure_callable'),
+        ('PersistenceImager._ensure_iterable', 'def _ensure_iterable'),
+        ('PersistenceImager._n_pixels', 'def _n_pixels'),
+        ('PersistenceImager._validate_parameters', 'def _validate_parameters'),
+        ('PersistenceImager.birth_range', '@property def birth_range'),
+        ('PersistenceImager.birth_range', '@birth_range.setter def birth_range'),
+        ('PersistenceImager.fit', 'def fit'),
+        ('PersistenceImager.pers_range', '@property def pers_range'),
+        ('PersistenceImager.pers_range', '@pers_range.setter def pers_range'),
+        ('PersistenceImager.pixel_size', '@property def pixel_size'),
+        ('PersistenceImager.pixel_size', '@pixel_size.setter def pixel_size'),
+    ],
+    'kernels': [
+        ('bvn_cdf', 'def bvn_cdf'),
+        ('erfc', 'from scipy.special import erfc'),
+        ('gaussian', 'def gaussian'),
+        ('norm_cdf', 'def norm_cdf'),
+        ('np', 'import numpy as np'),
+        ('sbvn_cdf', 'def sbvn_cdf'),
+        ('uniform', 'def uniform'),
+    ],
+    'landscaper': [
+        ('BaseEstimator', 'from sklearn.base import BaseEstimator'),
+        ('TransformerMixin', 'from sklearn.base import TransformerMixin'),
+        ('bool', 'builtin'),
+        ('float', 'builtin'),
+        ('int', 'builtin'),
+        ('itemgetter', 'from operator import itemgetter'),
+        ('max', 'builtin'),
+        ('min', 'builtin'),
+        ('np', 'import numpy as np'),
+        ('super', 'builtin'),
+        ('class PersistenceLandscaper', 'class PersistenceLandscaper(BaseEstimator, TransformerMixin)'),
+        ('PersistenceLandscaper.__init__', 'def __init__'),
+        ('PersistenceLandscaper.fit', 'def fit'),
+        ('PersistenceLandscaper.get_params', 'def get_params'),
+        ('PersistenceLandscaper.start', '@property def start'),
+        ('PersistenceLandscaper.start', '@start.setter def start'),
+        ('PersistenceLandscaper.stop', '@property def stop'),
+        ('PersistenceLandscaper.stop', '@stop.setter def stop'),
+    ],
+    'plarith': [
+        ('len', 'builtin'),
+        ('list', 'builtin'),
+        ('np', 'import numpy as np'),
+        ('pos_to_slope_interp', 'def pos_to_slope_interp'),
+        ('slope_to_pos_interp', 'def slope_to_pos_interp'),
+        ('sum_slopes', 'def sum_slopes'),
+        ('union_vals', 'def union_vals'),
+        ('zip', 'builtin'),
+    ],
+    'plarith_exact': [
+        ('PersLandscape', 'from .base import PersLandscape'),
+        ('ValueError', 'builtin'),
+        ('bool', 'builtin'),
+        ('float', 'builtin'),
+        ('int', 'builtin'),
+        ('len', 'builtin'),
+        ('list', 'builtin'),
+        ('np', 'import numpy as np'),
+        ('super', 'builtin'),
+        ('class PersLandscapeExact', 'class PersLandscapeExact(PersLandscape)'),
+        ('PersLandscapeExact.__init__', 'def __init__'),
+        ('PersLandscapeExact.compute_landscape', 'def compute_landscape'),
+    ],
+    'pnorm': [
+        ('_p_norm', 'def _p_norm'),
+        ('float', 'builtin'),
+        ('list', 'builtin'),
+        ('np', 'import numpy as np'),
+        ('sorted', 'builtin'),
+        ('zip', 'builtin'),
+    ],
+    'sliced': [
+        ('ValueError', 'builtin'),
+        ('cityblock', 'from scipy.spatial.distance import cityblock'),
+        ('len', 'builtin'),
+        ('np', 'import numpy as np'),
+        ('range', 'builtin'),
+        ('sliced_wasserstein', 'def sliced_wasserstein'),
+        ('sorted', 'builtin'),
+    ],
+    'wasserstein': [
+        ('float', 'builtin'),
+        ('len', 'builtin'),
+        ('min', 'builtin'),
+        ('np', 'import numpy as np'),
+        ('optimize', 'from scipy import optimize'),
+        ('warnings', 'import warnings'),
+        ('wasserstein', 'def wasserstein'),
+        ('zip', 'builtin'),
+    ],
+    'weights': [
+        ('len', 'builtin'),
+        ('linear_ramp', 'def linear_ramp'),
+        ('np', 'import numpy as np'),
+        ('persistence', 'def persistence'),
+        ('range', 'builtin'),
+    ],
+}
+SIGNATURES = {
+    ('approx', 'PersLandscapeApprox.compute_landscape'): 'def compute_landscape(self, verbose: bool=False) -> list',
+    ('approx', 'death_vector'): 'def death_vector(dgms: list, hom_deg: int=0)',
+    ('bottleneck', 'bottleneck'): 'def bottleneck(dgm1, dgm2, matching=False)',
+    ('entropy', 'persistent_entropy'): 'def persistent_entropy(dgms, keep_inf=False, val_inf=None, normalize=False)',
+    ('graph', 'determine_optimal_int_type'): 'def determine_optimal_int_type(value)',
+    ('graph', 'make_distance_matrix_from_adjacency_matrix'): 'def make_distance_matrix_from_adjacency_matrix(AG)',
+    ('heat', 'evalHeatKernel'): 'def evalHeatKernel(dgm1, dgm2, sigma)',
+    ('heat', 'heat'): 'def heat(dgm1, dgm2, sigma=0.4)',
+    ('imager', 'PersistenceImager._n_pixels'): 'def _n_pixels(self, extent)',
+    ('imager', 'PersistenceImager._create_mesh'): 'def _create_mesh(self)',
+    ('imager', 'PersistenceImager.pixel_size.setter'): '@pixel_size.setter\ndef pixel_size(self, val)',
+    ('imager', 'PersistenceImager.birth_range.setter'): '@birth_range.setter\ndef birth_range(self, val)',
+    ('imager', 'PersistenceImager.pers_range.setter'): '@pers_range.setter\ndef pers_range(self, val)',
+    ('imager', 'PersistenceImager.__init__'): 'def __init__(self, birth_range=None, pers_range=None, pixel_size=None, weight=None, weight_params=None, kernel=None, kernel_params=None)',
+    ('imager', 'PersistenceImager.fit'): 'def fit(self, pers_dgms, skew=True)',
+    ('kernels', 'uniform'): 'def uniform(x, y, mu=None, width=1, height=1)',
+    ('kernels', 'norm_cdf'): 'def norm_cdf(x)',
+    ('kernels', 'sbvn_cdf'): 'def sbvn_cdf(x, y, mu_x=0.0, mu_y=0.0, sigma_x=1.0, sigma_y=1.0)',
+    ('kernels', 'gaussian'): 'def gaussian(birth, pers, mu=None, sigma=None)',
+    ('landscaper', 'PersistenceLandscaper.start.setter'): '@start.setter\ndef start(self, value)',
+    ('landscaper', 'PersistenceLandscaper.stop.setter'): '@stop.setter\ndef stop(self, value)',
+    ('landscaper', 'PersistenceLandscaper.__init__'): 'def __init__(self, hom_deg: int=0, start: float=None, stop: float=None, num_steps: int=500, flatten: bool=False)',
+    ('landscaper', 'PersistenceLandscaper.get_params'): 'def get_params(self, deep=True)',
+    ('landscaper', 'PersistenceLandscaper.fit'): 'def fit(self, X: np.ndarray, y=None)',
+    ('plarith', 'pos_to_slope_interp'): 'def pos_to_slope_interp(l: list) -> list',
+    ('plarith', 'slope_to_pos_interp'): 'def slope_to_pos_interp(l: list) -> list',
+    ('plarith', 'sum_slopes'): 'def sum_slopes(a: list, b: list) -> list',
+    ('plarith', 'union_vals'): 'def union_vals(A, B)',
+    ('plarith', 'PersLandscapeExact.__init__'): 'def __init__(self, dgms: list=[], hom_deg: int=0, critical_pairs: list=[], compute: bool=True) -> None',
+    ('pnorm', '_p_norm'): 'def _p_norm(p: float, critical_pairs: list=[])',
+    ('sliced', 'sliced_wasserstein'): 'def sliced_wasserstein(PD1, PD2, M=50)',
+    ('wasserstein', 'wasserstein'): 'def wasserstein(dgm1, dgm2, matching=False)',
+    ('weights', 'persistence'): 'def persistence(birth, pers, n=1.0)',
+    ('weights', 'linear_ramp'): 'def linear_ramp(birth, pers, low=0.0, high=1.0, start=0.0, end=1.0)',
+}
+
+
 def trusted_note(key):
     """the entry a harness module adds to its TRUSTED list"""
     if key in STMT_KEYS:
         return ("harness/translator/py2lean.py + py2lean_stmt.py (statement-level ast translation of the anchored code of %s into "
                 "Generated/%s, proved equal to the hand-written model on every run; its TARGETS table -- binders, the attribute -> "
-                "field map, which callee is which definition / model helper, the obligation statements and proof scripts -- and its "
-                "stated conventions -- SSA, `self` as a state record, raising builtins as guards, loops as recursions -- and "
-                "Lemmas/SrcLib.lean are trusted)" % (FILES[key][0], FILES[key][1]))
+                "field map, which callee is which definition / model helper, the obligation statements and proof scripts, the reviewed "
+                "texts of signatures / skeletons / module- and class-level bindings -- and its stated conventions -- SSA, `self` as a state "
+                "record, raising builtins as guards, loops as recursions, names resolved by spelling with their bindings pinned as text -- "
+                "and Lemmas/SrcLib.lean are trusted)" % (FILES[key][0], FILES[key][1]))
     return ("harness/translator/py2lean.py (ast translation of the anchored arithmetic of %s into Generated/%s, proved equal to "
             "the hand-written model by rfl on every run; its TARGETS table -- binders, which callee is which parameter, the obligation "
-            "statements -- and its stated conventions -- elementwise broadcasting, sqrt/exp/log/pow as named parameters -- are trusted)"
+            "statements, the reviewed texts of signatures / skeletons / module-level bindings -- and its stated conventions -- elementwise "
+            "broadcasting, sqrt/exp/log/pow as named parameters, names resolved by spelling with their bindings pinned as text -- are trusted)"
             % (FILES[key][0], FILES[key][1]))
+
+
+PINS_NOTE = (" What the translation does not read or normalises away is pinned as text against the translator's reviewed tables and "
+             "breaks an obligation of that name when it changes: the rest of each function around a translated region "
+             "(src_<f>_skeleton, src_<f>_skeleton_after), decorators / parameters / defaults (src_<function>_signature), "
+             "conversions such as np.array(x, dtype=float) that are the identity of the model (src_<f>_conversions), skipped "
+             "`if p is None` defaults (src_<f>_none_defaults), and every module-level binding of every name those functions use, "
+             "with the class-level bindings of the self.<attr> they use (src_<file>_bindings). Not tied by the translator: "
+             "functions without a target, the callers, dynamic rebinding (globals(), setattr, monkeypatching from another "
+             "module), base classes and imported libraries.")
 
 
 def manifest_note(key):
@@ -1019,17 +1281,19 @@ def manifest_note(key):
                 "run (Generated/%s), statement by statement (attribute reads/writes of `self` as fields of the model's state record, "
                 "raising calls as `Except`, loops as recursions), and proved EQUAL to the hand-written model definitions (rfl, case "
                 "analysis, or an induction relating the generated loop to the model's recursion): %s; an edit of those lines "
-                "breaks a generated obligation and triggers the failing-input search (trusted: the translator's stated conventions, "
-                "its TARGETS table and Lemmas/SrcLib.lean)." % (FILES[key][0], FILES[key][1], ", ".join(fs)))
+                "breaks a generated obligation and triggers the failing-input search, except a rewrite inside the translator's stated "
+                "value-preserving conventions or a renaming of locals.%s (trusted: the translator's stated conventions, "
+                "its TARGETS table and Lemmas/SrcLib.lean)." % (FILES[key][0], FILES[key][1], ", ".join(fs), PINS_NOTE))
     for cfg in TARGETS:
         if cfg["file"] == key:
             f = cfg["func"] if cfg["region"] == "function" else "%s (%s)" % (cfg["func"], cfg["lean"])
             if f not in fs:
                 fs.append(f)
     return ("Source translator: these parts of %s are re-translated from the source text into Lean on every run (Generated/%s) "
-            "and proved EQUAL to the hand-written model definitions by rfl, polymorphically: %s; an edit of those lines -- "
-            "meaning-changing or not -- breaks a generated obligation and triggers the failing-input search (trusted: the "
-            "translator's stated conventions and its TARGETS table)." % (FILES[key][0], FILES[key][1], ", ".join(fs)))
+            "and proved EQUAL to the hand-written model definitions by rfl, polymorphically: %s; an edit of those lines "
+            "breaks a generated obligation and triggers the failing-input search, except a rewrite inside the translator's stated "
+            "value-preserving conventions or a renaming of locals.%s (trusted: the "
+            "translator's stated conventions and its TARGETS table)." % (FILES[key][0], FILES[key][1], ", ".join(fs), PINS_NOTE))
 
 
 def prop_file(key):
@@ -1088,6 +1352,338 @@ def unparse_with_holes(stmts, holes, collapse=False):
     holes = holes2
     out = R().visit(mod2)
     return ast.unparse(ast.fix_missing_locations(out))
+
+
+# ----------------------------------------------------------------------------- pins: what the translation does not read
+#
+# The engines resolve names BY SPELLING (`np.sqrt` is the parameter `sqrt` whatever `np` is bound to), skip decorators, and
+# normalise some expressions (`np.array(x, dtype=float)` -> `x`, `if p is None: p = <default>` -> nothing).  What they
+# normalise away or never read is recorded as TEXT next to the definitions, each with an obligation that compares it with
+# the reviewed text of this file's tables:
+#   srcSignature_<function> / src_<function>_signature   decorators + `def f(params=defaults) -> annotation`
+#   srcBindings_<file>      / src_<file>_bindings         every module-level binding of every name that a translated
+#                                                         function uses and does not bind itself (imports, defs, classes,
+#                                                         assignments, `global` declarations, star imports), and the
+#                                                         class-level bindings of the `self.<attr>` it uses
+#   srcConversions_<f>      / src_<f>_conversions         the array conversions the translation reads as the identity
+#   srcNoneDefaults_<f>     / src_<f>_none_defaults       the `if p is None: p = <default>` guards it skips
+
+def one_line(node, limit=160):
+    t = " ".join(ast.unparse(node).split())
+    return t if len(t) <= limit else t[:limit - 3] + "..."
+
+
+def signature_text(fn):
+    """decorators and the `def` line of a function, as `ast.unparse` prints them (defaults and annotations included)"""
+    stub = ast.FunctionDef(name=fn.name, args=fn.args, body=[ast.Expr(ast.Constant(Ellipsis))], decorator_list=fn.decorator_list,
+                           returns=fn.returns, type_comment=None, lineno=0, col_offset=0)
+    if hasattr(fn, "type_params"):
+        stub.type_params = getattr(fn, "type_params")
+    lines = ast.unparse(ast.fix_missing_locations(stub)).split("\n")
+    if lines[-1].strip() != "...":
+        raise Shape("internal: signature of %s" % fn.name)
+    return "\n".join(lines[:-1]).rstrip(":")
+
+
+SCOPES = (ast.FunctionDef, ast.AsyncFunctionDef, ast.ClassDef, ast.Lambda)
+
+
+def _target_names(t):
+    if isinstance(t, ast.Name):
+        return [t.id]
+    if isinstance(t, (ast.Attribute, ast.Subscript)):      # `np.sqrt = f`, `table[k] = v`: the object the name stands for is changed
+        while isinstance(t, (ast.Attribute, ast.Subscript)):
+            t = t.value
+        return [t.id] if isinstance(t, ast.Name) else []
+    if isinstance(t, (ast.Tuple, ast.List)):
+        return [n for e in t.elts for n in _target_names(e)]
+    if isinstance(t, ast.Starred):
+        return _target_names(t.value)
+    return []
+
+
+def scope_bindings(stmts):
+    """[(name, text)] for every binding that the statements of ONE scope (a module or a class body) make, in source order;
+    compound statements are entered, nested function / class bodies are not"""
+    out = []
+
+    def deco(s):
+        return "".join("@%s " % one_line(d) for d in s.decorator_list)
+
+    def walrus(node):
+        todo = [node]
+        while todo:
+            n = todo.pop()
+            if isinstance(n, SCOPES):
+                continue
+            if isinstance(n, ast.NamedExpr) and isinstance(n.target, ast.Name):
+                out.append((n.target.id, "walrus: " + one_line(n)))
+            todo.extend(ast.iter_child_nodes(n))
+
+    def visit(seq):
+        for s in seq:
+            if isinstance(s, ast.Import):
+                for a in s.names:
+                    out.append((a.asname or a.name.split(".")[0], "import %s%s" % (a.name, " as " + a.asname if a.asname else "")))
+            elif isinstance(s, ast.ImportFrom):
+                mod = "." * s.level + (s.module or "")
+                for a in s.names:
+                    out.append(("*" if a.name == "*" else (a.asname or a.name),
+                                "from %s import %s%s" % (mod, a.name, " as " + a.asname if a.asname else "")))
+            elif isinstance(s, (ast.FunctionDef, ast.AsyncFunctionDef)):
+                out.append((s.name, "%sdef %s" % (deco(s), s.name)))
+            elif isinstance(s, ast.ClassDef):
+                out.append((s.name, "%sclass %s(%s)" % (deco(s), s.name, ", ".join(one_line(b) for b in list(s.bases) + list(s.keywords)))))
+            elif isinstance(s, ast.Assign):
+                for t in s.targets:
+                    for n in _target_names(t):
+                        out.append((n, "assign: " + one_line(s)))
+                walrus(s.value)
+            elif isinstance(s, (ast.AugAssign, ast.AnnAssign)):
+                if not (isinstance(s, ast.AnnAssign) and s.value is None):
+                    for n in _target_names(s.target):
+                        out.append((n, "assign: " + one_line(s)))
+            elif isinstance(s, ast.Delete):
+                for t in s.targets:
+                    for n in _target_names(t):
+                        out.append((n, "del"))
+            elif isinstance(s, (ast.For, ast.AsyncFor)):
+                for n in _target_names(s.target):
+                    out.append((n, "loop variable: for %s in %s" % (one_line(s.target), one_line(s.iter))))
+                visit(s.body)
+                visit(s.orelse)
+            elif isinstance(s, (ast.While, ast.If)):
+                walrus(s.test)
+                visit(s.body)
+                visit(s.orelse)
+            elif isinstance(s, (ast.With, ast.AsyncWith)):
+                for it in s.items:
+                    if it.optional_vars is not None:
+                        for n in _target_names(it.optional_vars):
+                            out.append((n, "with … as: " + one_line(it.context_expr)))
+                visit(s.body)
+            elif isinstance(s, ast.Try) or type(s).__name__ == "TryStar":
+                visit(s.body)
+                for h in s.handlers:
+                    if h.name:
+                        out.append((h.name, "except … as"))
+                    visit(h.body)
+                visit(s.orelse)
+                visit(s.finalbody)
+            elif type(s).__name__ == "Match":
+                for c in s.cases:
+                    for n in ast.walk(c.pattern):
+                        nm = getattr(n, "name", None)
+                        if isinstance(nm, str):
+                            out.append((nm, "match pattern"))
+                    visit(c.body)
+            elif isinstance(s, ast.Expr):
+                walrus(s.value)
+    visit(stmts)
+    return out
+
+
+def global_declarations(tree):
+    """[(name, text)] for `global x` declarations inside functions (a function that may rebind the module-level name)"""
+    out = []
+    for f in ast.walk(tree):
+        if isinstance(f, (ast.FunctionDef, ast.AsyncFunctionDef)):
+            for n in ast.walk(f):
+                if isinstance(n, ast.Global):
+                    for nm in n.names:
+                        out.append((nm, "global %s in def %s" % (nm, f.name)))
+    return out
+
+
+def external_names(fn):
+    """names a function reads (anywhere inside it: defaults, decorators, nested lambdas and comprehensions included) and does
+    not bind itself -- they are looked up in the module, then in `builtins`"""
+    bound = {a.arg for a in ast.walk(fn) if isinstance(a, ast.arg)}
+    loaded = []
+    for n in ast.walk(fn):
+        if isinstance(n, ast.Name):
+            if isinstance(n.ctx, ast.Load):
+                loaded.append(n.id)
+            else:
+                bound.add(n.id)
+        elif isinstance(n, (ast.FunctionDef, ast.AsyncFunctionDef, ast.ClassDef)) and n is not fn:
+            bound.add(n.name)
+        elif isinstance(n, ast.ExceptHandler) and n.name:
+            bound.add(n.name)
+        elif isinstance(n, (ast.Import, ast.ImportFrom)):
+            for a in n.names:
+                bound.add(a.asname or a.name.split(".")[0])
+        elif isinstance(n, (ast.Global, ast.Nonlocal)):
+            for nm in n.names:
+                loaded.append(nm)
+    glob = {nm for n in ast.walk(fn) if isinstance(n, ast.Global) for nm in n.names}
+    out = []
+    for nm in loaded:
+        if (nm not in bound or nm in glob) and nm not in out:
+            out.append(nm)
+    return out
+
+
+def self_attributes(fn):
+    """attribute names used as `self.<attr>` in a method"""
+    out = []
+    for n in ast.walk(fn):
+        if isinstance(n, ast.Attribute) and isinstance(n.value, ast.Name) and n.value.id == "self" and n.attr not in out:
+            out.append(n.attr)
+    return out
+
+
+ATTRIBUTE_HOOKS = ("__getattr__", "__getattribute__", "__setattr__", "__delattr__", "__slots__", "__new__", "__init_subclass__",
+                   "__class_getitem__", "__set_name__")
+
+
+def file_bindings(tree, functions):
+    """the binding record of one Python file.  `functions`: [(qualified name 'f' | 'Class.m', FunctionDef, ClassDef | None)] of
+    the translated functions.  -> [(name, text)], sorted by name; a name with several bindings has several entries, in source
+    order; a name that the module does not bind is `builtin` or `unbound`."""
+    import builtins
+    mod = scope_bindings(tree.body)
+    globs = global_declarations(tree)
+    stars = [t for n, t in mod if n == "*"]
+    names, classes = [], []
+    for q, fn, cls in functions:
+        ext = external_names(fn)
+        if cls is not None:
+            # decorators, defaults and annotations of a method are evaluated in the CLASS body: a name bound there (`@p.setter`)
+            # is recorded below as `Class.p`; the method's body does not see the class scope
+            cb = {n for n, _ in scope_bindings(cls.body)}
+            body_names = {n.id for st in fn.body for n in ast.walk(st) if isinstance(n, ast.Name)}
+            ext = [nm for nm in ext if not (nm in cb and nm not in body_names)]
+        for nm in ([fn.name] if cls is None else []) + ext:                   # its own name: `f = wrap(f)` after the def
+            if nm not in names:
+                names.append(nm)
+        if cls is not None and cls not in classes:
+            classes.append(cls)
+    for cls in classes:                       # the class statement itself is evaluated in the module: bases, decorators
+        for b in list(cls.bases) + [k.value for k in cls.keywords] + list(cls.decorator_list):
+            for n in ast.walk(b):
+                if isinstance(n, ast.Name) and n.id not in names:
+                    names.append(n.id)
+    out = []
+    for nm in sorted(names):
+        texts = [t for n, t in mod if n == nm] + stars + [t for n, t in globs if n == nm]
+        if not texts:
+            texts = ["builtin" if hasattr(builtins, nm) else "unbound"]
+        out += [(nm, t) for t in texts]
+    for cls in classes:
+        out.append(("class " + cls.name, [t for n, t in mod if n == cls.name][-1] if any(n == cls.name for n, _ in mod) else "unbound"))
+        cb = scope_bindings(cls.body)
+        attrs = list(ATTRIBUTE_HOOKS)             # what would change the meaning of every `self.a` / `self.a = e`, if present
+        for q, fn, c in functions:
+            if c is cls:
+                for a in [fn.name] + self_attributes(fn):
+                    if a not in attrs:
+                        attrs.append(a)
+        for a in sorted(attrs):
+            for n, t in cb:
+                if n == a:
+                    out.append(("%s.%s" % (cls.name, a), t))
+    return out
+
+
+TEXT_PINNED_ELSEWHERE = {"persim/images_kernels.py": {"bvn_cdf": "statement text pinned by consts.py (KernelConsts.structure_bvn_cdf)",
+                                                       "gauss_legendre_quad": "tables and statement text pinned by consts.py"}}
+
+
+def not_translated(path, tree, funcs):
+    """qualified names of the functions and methods of a Python file that have NO target (`funcs`: the qualified names that
+    have one); getters `return self._a` of properties are read by the statement engine (`cls_props`) and are not listed"""
+    have = {f.replace(".setter", "").replace(".getter", "") for f in funcs}
+    out = []
+    for n in tree.body:
+        if isinstance(n, (ast.FunctionDef, ast.AsyncFunctionDef)):
+            if n.name not in have:
+                note = TEXT_PINNED_ELSEWHERE.get(path, {}).get(n.name)
+                out.append(n.name + (" [%s]" % note if note else ""))
+        elif isinstance(n, ast.ClassDef):
+            ms = [m for m in n.body if isinstance(m, (ast.FunctionDef, ast.AsyncFunctionDef))]
+            if not any(f.startswith(n.name + ".") for f in funcs):
+                out.append("class %s (all %d methods)" % (n.name, len(ms)))
+                continue
+            seen = []
+            for m in ms:
+                q = "%s.%s" % (n.name, m.name)
+                setter = any(isinstance(d, ast.Attribute) and d.attr == "setter" for d in m.decorator_list)
+                getter = any(isinstance(d, ast.Name) and d.id == "property" for d in m.decorator_list)
+                if (q + ".setter" if setter else q) in funcs or q in seen:
+                    continue
+                body = strip_doc(m.body)
+                if getter and len(body) == 1 and isinstance(body[0], ast.Return) and isinstance(body[0].value, ast.Attribute) \
+                        and q + ".setter" in funcs:
+                    continue
+                seen.append(q)
+                out.append(q + (" (setter)" if setter else " (getter)" if getter else ""))
+    return out
+
+
+def all_target_functions(path):
+    """qualified names of the functions of the Python file `path` that have a target in either engine"""
+    return ([c["func"] for c in TARGETS if FILES[c["file"]][0] == path]
+            + [c["func"] for c in py2lean_stmt.TARGETS if c.get("pyfile", FILES[c["file"]][0]) == path])
+
+
+def not_translated_comment(items):
+    """Lean comment listing, per Python file, what the translators do not tie (regenerated from the source: informative only)"""
+    o = ["/-! ### not tied by this file",
+         "Functions and methods of the translated Python files that have NO target here (neither translated nor pinned as text; their",
+         "models, where they have one, are tied to the code by the correspondence streams only):"]
+    for path, names in items:
+        o.append("  * %s: %s" % (path, ", ".join(names).replace("-/", "- /") if names else "(none: every function of the file has a target)"))
+    o.append("Also not tied: callers (`persim/__init__.py`), rebinding that is not a statement of the module's own scope (`globals()`,")
+    o.append("`setattr`, another module patching this one), base classes, the libraries behind the imported names.")
+    o.append("-/\n")
+    return "\n".join(o)
+
+
+def render_bindings(key, entries, expected):
+    """Lean text of the binding record of the file `key` and its obligation"""
+    def lst(es, ind):
+        return "[" + (",\n" + ind).join("(%s, %s)" % (lean_str(n), lean_str(t)) for n, t in es) + "]"
+    return ("/-! ### module-level (and class-level) bindings of the names the translated functions use -/\n\n"
+            "/-- every binding, in the module, of every name that a translated function of this file reads and does not bind itself\n"
+            "    (the translation resolves names by spelling: this is what the spelling stands for); `Class.attr`: the bindings in\n"
+            "    the class body of the `self.attr` the translated methods use -/\n"
+            "def srcBindings_%s : List (String × String) :=\n  %s\n"
+            "theorem src_%s_bindings : srcBindings_%s =\n  %s := rfl\n" % (key, lst(entries, "   "), key, key, lst(expected, "   ")))
+
+
+def sanitize(func):
+    """Lean identifier part for a Python qualified name: `PersistenceImager.__init__` -> `PersistenceImager_init`"""
+    return re.sub(r"_+", "_", re.sub(r"\W", "_", func)).strip("_")
+
+
+def render_signature(func, text, expected):
+    s = sanitize(func)
+    return ("/-- decorators and `def` line of `%s` (defaults and annotations as `ast.unparse` prints them) -/\n"
+            "def srcSignature_%s : String :=\n  %s\n"
+            "theorem src_%s_signature : srcSignature_%s =\n  %s := rfl\n" % (func, s, lean_str(text), s, s, lean_str(expected)))
+
+
+def numeric_leaves(node, src):
+    """the numeric literals of a (nested) list / tuple / `np.array(...)` expression, row-major, or None"""
+    if isinstance(node, ast.Call) and node.args and isinstance(node.args[0], (ast.List, ast.Tuple)):
+        node = node.args[0]
+    if isinstance(node, (ast.List, ast.Tuple)):
+        out = []
+        for e in node.elts:
+            sub = numeric_leaves(e, src)
+            if sub is None:
+                return None
+            out += sub
+        return out
+    neg = False
+    while isinstance(node, ast.UnaryOp) and isinstance(node.op, (ast.USub, ast.UAdd)):
+        neg = neg != isinstance(node.op, ast.USub)
+        node = node.operand
+    if isinstance(node, ast.Constant) and isinstance(node.value, (int, float)) and not isinstance(node.value, bool):
+        q = Fraction((ast.get_source_segment(src, node) or repr(node.value)).replace("_", ""))
+        return [-q if neg else q]
+    return None
 
 
 def stmt_key(st):
@@ -1195,7 +1791,8 @@ KTYPE = {"S": "α", "B": "Bool", "LP": DGM, "P": "α × α"}
 
 
 def translate(src, fns, cfg):
-    """-> (lean definition text, skeleton or None, defaults or None); raises Shape"""
+    """-> (lean definition text, skeleton or None, defaults or None, pins); raises Shape
+    pins: {"conversions": [text], "none_defaults": [(parameter, text, [Fraction] | None)]}"""
     fn = fns.get(cfg["func"])
     if fn is None:
         raise Shape("function %s not found" % cfg["func"])
@@ -1237,7 +1834,7 @@ def translate(src, fns, cfg):
     sig = " ".join("(%s : %s)" % (" ".join(ns), ty) for ns, ty in groups)
     text = "def %s %s : %s :=\n%s" % (cfg["lean"], sig, cfg.get("result", "α"), render_def(node))
     defaults = read_defaults(src, fn, [n for n, _ in cfg["defaults"]]) if cfg.get("defaults") else None
-    return text, skeleton, defaults
+    return text, skeleton, defaults, {"conversions": [t for _, t in tr.conversions], "none_defaults": list(tr.none_defaults)}
 
 
 # ----------------------------------------------------------------------------- Lean output
@@ -1259,6 +1856,9 @@ def lean_str(s):
     t = s.replace("\\", "\\\\").replace('"', '\\"').replace("\n", "\\n")
     for w in AUDITED_WORDS:
         t = t.replace(w, "\\x%02x%s" % (ord(w[0]), w[1:]))
+    # check.py strips Lean comments crudely (strings are not recognised): never let quoted Python open or close one
+    while "--" in t or "/-" in t or "-/" in t:
+        t = t.replace("--", "-\\x2d").replace("/-", "/\\x2d").replace("-/", "\\x2d/")
     return '"' + t + '"'
 
 
@@ -1271,14 +1871,21 @@ def header(key):
         "Each `def` below is the Python source translated expression by expression (`ast`); each `src_…_eq_model` is the\n"
         "obligation that it EQUALS the hand-written model definition of %s, polymorphically over the\n"
         "model's own core classes (hence at `Rat`, `Float` and `ℝ`).  The proofs are `rfl`: both sides must unfold to the same\n"
-        "term, so any edit of the translated lines — meaning-changing or not — breaks an obligation (DESIGN.md 3.2/3.3).\n\n"
+        "term, so an edit of the translated lines breaks an obligation unless it is one of the value-preserving rewrites below or\n"
+        "a renaming of locals (DESIGN.md 3.2/3.3).  What the translation normalises away or does not read is pinned as TEXT\n"
+        "(`ast.unparse`; comments and docstrings do not count) against the reviewed text of the translator's tables:\n"
+        "`srcSkeleton_<f>` (the function around a region), `srcSignature_<function>` (decorators, parameters, defaults),\n"
+        "`srcConversions_<f>` (`np.array(x, dtype=float)` read as `x`), `srcNoneDefaults_<f>` (skipped `if p is None: p = …`),\n"
+        "`srcBindings_<file>` (every module-level binding of every name the translated functions use: names are resolved by\n"
+        "spelling, this is what the spelling stands for).  Not tied: functions without a target, dynamic rebinding, the libraries.\n\n"
         "Conventions of the translation (value-preserving; they are the translator's semantics of its Python subset):\n"
         "  * NumPy broadcasting is modelled ELEMENTWISE: an array argument stands for one of its entries (the model is per\n"
         "    point / per pair); vectors that are reduced (`np.sum`, `all`, `len`) are `List`s, elementwise intermediates are\n"
         "    fused into one `List.map`;\n"
         "  * `a > b` is written `b < a`, `a >= b` is written `b ≤ a`; `np.maximum/np.minimum` are `max/min`;\n"
         "  * `np.sqrt/np.exp/np.log/np.expm1/erfc`, `**` (as `pow`), `np.pi` and calls of other functions of the same file are\n"
-        "    explicit parameters; `np.abs`, `sorted`, `cityblock` are the model's helpers named in the text; `np.array(x[, dtype=float])` is `x`;\n"
+        "    explicit parameters; `np.abs`, `sorted`, `cityblock` are the model's helpers named in the text; `np.array(x[, dtype=float])`\n"
+        "    is `x` (and is recorded as written in `srcConversions_<f>`);\n"
         "  * float literals are written as in the source where the model has `OfScientific` (`2.0`), otherwise as the numeral\n"
         "    they denote (`1.0` ↦ `1`); `e ** 2` on a difference of points is `e * e`; unary `+e` is `e`; `flag == True` is `flag`;\n"
         "  * a 2-vector (row `A[i, 0:2]`, `[e] * 2`) is a pair, `A[j, 1::-1]` swaps it, pair arithmetic is componentwise,\n"
@@ -1298,13 +1905,17 @@ def render_file(key, root):
         return py2lean_stmt.render_file(key, root)
     py, out, ns, model, prop = FILES[key]
     o, info = [header(key)], {"source": py, "output": "/".join([GEN.replace(os.sep, "/"), out]), "functions": {}}
-    src, fns, file_err = "", {}, None
+    src, fns, file_err, tree = "", {}, None, None
     try:
         src = open(os.path.join(root, py)).read()
         tree = ast.parse(src)
         fns = {n.name: n for n in tree.body if isinstance(n, ast.FunctionDef)}
     except (OSError, SyntaxError) as e:
         file_err = "%s: %s" % (type(e).__name__, e)
+    # what the spelling of the names stands for: the module-level bindings of the names the translated functions use
+    o.append(bindings_section(key, tree, [(c["func"], fns.get(c["func"]), None) for c in TARGETS if c["file"] == key],
+                              BINDINGS.get(key), file_err, info))
+    signed = set()
     for cfg in TARGETS:
         if cfg["file"] != key:
             continue
@@ -1316,7 +1927,7 @@ def render_file(key, root):
         err = file_err
         if err is None:
             try:
-                text, skeleton, defaults = translate(src, fns, cfg)
+                text, skeleton, defaults, pins = translate(src, fns, cfg)
             except Shape as e:
                 err = "Shape: %s" % e
             except Exception as e:               # anything else the source makes the translator do: outside the subset
@@ -1348,10 +1959,90 @@ def render_file(key, root):
             o.append("theorem src_%s_defaults : srcDefaults_%s =\n  [%s] := by decide +kernel\n" % (
                 f, f, ", ".join('("%s", %s)' % (n, rat(Fraction(q))) for n, q in cfg["defaults"])))
             names.append("src_%s_defaults" % f)
+        if cfg["func"] not in signed:                   # once per Python function: decorators, parameters, defaults
+            signed.add(cfg["func"])
+            o.append(render_signature(cfg["func"], signature_text(fns[cfg["func"]]), SIGNATURES.get((key, cfg["func"]), "")))
+            names.append("src_%s_signature" % sanitize(cfg["func"]))
+        if pins["conversions"] or cfg.get("conversions"):
+            o.append("/-- the array conversions at the entry of `%s` that the translation reads as the identity of the exact-arithmetic\n"
+                     "    model (`np.array(x, dtype=float)` ↦ `x`), as written: the dtype they convert to is part of the text -/" % cfg["func"])
+            o.append("def srcConversions_%s : List String :=\n  [%s]" % (f, ", ".join(lean_str(t) for t in pins["conversions"])))
+            o.append("theorem src_%s_conversions : srcConversions_%s =\n  [%s] := rfl\n" % (
+                f, f, ", ".join(lean_str(t) for t in cfg.get("conversions", []))))
+            names.append("src_%s_conversions" % f)
+        if pins["none_defaults"] or cfg.get("none_default_values"):
+            def nd(items):
+                return ", ".join("(%s, %s, [%s])" % (lean_str(p), lean_str(t), ", ".join(rat(q) for q in (qs or [])))
+                                 for p, t, qs in items)
+            o.append("/-- the guards `if p is None: p = <default>` of `%s`, which the translation skips (the model takes the value):\n"
+                     "    parameter, the default as written, its numeric entries (row-major) -/" % cfg["func"])
+            o.append("def srcNoneDefaults_%s : List (String × String × List Rat) :=\n  [%s]" % (f, nd(pins["none_defaults"])))
+            o.append("theorem src_%s_none_defaults : srcNoneDefaults_%s =\n  [%s] := by decide +kernel\n" % (
+                f, f, nd([(p, t, [Fraction(x) for x in qs.split()]) for p, t, qs in cfg.get("none_default_values", [])])))
+            names.append("src_%s_none_defaults" % f)
         o.append("end\n")
         info["functions"][f] = {"obligations": names}
+    if tree is not None:
+        info["not_translated"] = {py: not_translated(py, tree, all_target_functions(py))}
+        o.append(not_translated_comment(sorted(info["not_translated"].items())))
     o.append("end %s\n" % ns)
     return "\n".join(o), info
+
+
+def bindings_section(key, tree, functions, expected, file_err, info):
+    """the `srcBindings_<key>` block of a generated file (both engines); `functions`: [(qualified name, FunctionDef | None, ClassDef | None)]"""
+    err = file_err
+    entries = None
+    if err is None:
+        missing = [q for q, fn, _ in functions if fn is None]
+        try:
+            seen, fl = set(), []
+            for q, fn, cls in functions:
+                if fn is not None and id(fn) not in seen:
+                    seen.add(id(fn))
+                    fl.append((q, fn, cls))
+            entries = file_bindings(tree, fl)
+            if missing:
+                entries = entries + [("(missing) " + q, "not found") for q in missing]
+        except Exception as e:                       # a source the scan cannot read is outside the subset
+            err = "%s: %s" % (type(e).__name__, e)
+    if err is not None:
+        info.setdefault("bindings", {})[key] = {"error": err}
+        return ("/-- the module-level bindings could not be read: %s -/\ndef srcBindingsRead_%s : Bool := false\n"
+                "theorem src_%s_bindings : srcBindingsRead_%s = true := by decide\n"
+                % (err.replace("-/", "- /").replace("/-", "/ -").replace("\n", " "), key, key, key))
+    info.setdefault("bindings", {})[key] = {"obligation": "src_%s_bindings" % key, "entries": len(entries)}
+    return render_bindings(key, entries, expected or [])
+
+
+def expected_tables(root):
+    """Python source of the BINDINGS and SIGNATURES tables as the tree at `root` has them -- for a maintainer who has REVIEWED
+    a change of the imports / signatures of /repo and re-baselines the tables above (`python -m harness.translator.py2lean
+    --expected [root]`); never called by the checks"""
+    b, sg = {}, {}
+    for key in sorted(FILES):
+        text, _ = render_file(key, root)
+        for m in re.finditer(r"def srcBindings_(\w+) : List \(String × String\) :=\n  \[(.*?)\]\ntheorem", text, re.S):
+            b[m.group(1)] = re.findall(r'\("((?:[^"\\]|\\.)*)", "((?:[^"\\]|\\.)*)"\)', m.group(2))
+        for cfg in TARGETS + py2lean_stmt.TARGETS:
+            if cfg["file"] == key:
+                m = re.search(r"def srcSignature_%s : String :=\n  \"((?:[^\"\\]|\\.)*)\"\n" % sanitize(cfg["func"]), text)
+                if m:
+                    sg[(key, cfg["func"])] = m.group(1)
+
+    def un(t):
+        return re.sub(r"\\x([0-9a-f]{2})", lambda m: chr(int(m.group(1), 16)), t).replace("\\n", "\n").replace('\\"', '"').replace("\\\\", "\\")
+    out = ["BINDINGS = {"]
+    for k, es in b.items():
+        out.append("    %r: [" % k)
+        out += ["        (%r, %r)," % (un(n), un(t)) for n, t in es]
+        out.append("    ],")
+    out.append("}")
+    out.append("SIGNATURES = {")
+    for k, t in sg.items():
+        out.append("    %r: %r," % (k, un(t)))
+    out.append("}")
+    return "\n".join(out)
 
 
 def generate(repo_root, out_dir, only=None):
@@ -1379,7 +2070,8 @@ def pre_build(ctx, keys):
     """the `pre_build(ctx)` of a harness module: regenerate the files of `keys` from PERSIM_ROOT's source"""
     from .. import common
     res = generate(common.REPO, common.LEAN_DIR, only=keys)
-    ctx.extra["source_translator"] = {k: {"source": v["source"], "output": v["output"], "functions": v["functions"]}
+    ctx.extra["source_translator"] = {k: {"source": v["source"], "output": v["output"], "functions": v["functions"],
+                                          "bindings": v.get("bindings"), "not_translated": v.get("not_translated")}
                                       for k, v in res.items()}
     return res
 
@@ -1454,6 +2146,10 @@ _register()
 if __name__ == "__main__":
     import sys
     here = os.path.dirname(os.path.dirname(os.path.dirname(os.path.abspath(__file__))))
+    if "--expected" in sys.argv:
+        args = [a for a in sys.argv[1:] if a != "--expected"]
+        print(expected_tables(args[0] if args else os.environ.get("PERSIM_ROOT", "/repo")))
+        sys.exit(0)
     root = sys.argv[1] if len(sys.argv) > 1 else os.environ.get("PERSIM_ROOT", "/repo")
     for k, v in generate(root, os.path.join(here, "lean")).items():
         print(k, v["output"], "rewritten" if v["rewritten"] else "unchanged",
